@@ -134,8 +134,28 @@ func OrderingExtras() []Val {
 	for _, q := range []qty{{"1", "Mg", "1 'Mg'"}, {"1", "ms", "1 'ms'"}, {"1", "m", "1 'm'"}, {"1", "Ms", "1 'Ms'"}, {"2", "m", "2 'm'"}, {"1", "mm", "1 'mm'"}, {"1", "mms", "1 'mms'"}} {
 		p = append(p, Val{ID: "q" + q.n + q.unit, Lit: q.lit, V: mustQty(q.n, q.unit), Kind: "Quantity", Class: "qty." + q.unit, RKind: "qty", RNum: ratOf(q.n), RStr: q.unit})
 	}
+	// millisecond literals and the microsecond elements that denote the same millisecond (a System value keeps milliseconds)
+	for _, s := range []string{"2020-01-15T10:30:15.123Z", "2020-01-15T12:30:15.123+02:00", "2020-01-15T10:30:15.124Z"} {
+		p = append(p, Val{ID: "@" + s, Lit: "@" + s, V: mustDateTime(s), Kind: "DateTime", Class: "datetime.p6.ms3"})
+	}
+	p = append(p, Val{ID: "@T10:30:15.123", Lit: "@T10:30:15.123", V: mustTime("10:30:15.123"), Kind: "Time", Class: "time.p3.ms3"})
 	for i := range p {
 		attachRef(&p[i])
+	}
+	for _, e := range []struct {
+		id, kind, class, rkind, text string
+		v                            any
+	}{
+		{"f.instant.us", "instant", "fhir.instant.us", "DateTime", "2020-01-15T10:30:15.123Z", ProtoInstant("2020-01-15T10:30:15.123456Z")},
+		{"f.instant.us.off", "instant", "fhir.instant.us", "DateTime", "2020-01-15T12:30:15.123+02:00", ProtoInstant("2020-01-15T12:30:15.123999+02:00")},
+		{"f.dt.us", "dateTime", "fhir.datetime.us", "DateTime", "2020-01-15T10:30:15.123Z", ProtoDateTime("2020-01-15T10:30:15.123456Z")},
+		{"f.time.us", "time", "fhir.time.us", "Time", "T10:30:15.123", ProtoTime("10:30:15.123456")},
+	} {
+		t, ok := ParseRefT(e.rkind, e.text)
+		if !ok {
+			panic("ordering extras " + e.text)
+		}
+		p = append(p, Val{ID: e.id, V: e.v, Kind: "fhir." + e.kind, Class: e.class, RKind: "temporal", RT: t})
 	}
 	return p
 }
